@@ -84,6 +84,26 @@ def fs_version(st):
 
 
 EXTRA_FN_MODELS = {}
+SYM_UNWIND = 16
+
+
+class GenList(list):
+    """What a generator expression / iter(...) would yield, as a list that `next` may consume."""
+
+
+def _plain(v):
+    """Only ordinary Python data (no model objects): concrete evaluation, including its exceptions, is the program's."""
+    import datetime as _dt
+
+    if v is None or isinstance(v, (str, bytes, int, float, bool, enum.Enum, _dt.date, type, types.FunctionType, types.BuiltinFunctionType)):
+        return True
+    if isinstance(v, (list, tuple, set, frozenset)):
+        return all(_plain(x) for x in v)
+    if isinstance(v, dict):
+        return all(_plain(k) and _plain(x) for k, x in v.items())
+    if isinstance(v, (range, type({}.items()), type({}.keys()), type({}.values()))):
+        return True
+    return False
 
 
 class Models:
@@ -660,6 +680,9 @@ class Models:
         if spec is None and qn == ex.top:
             spec = loops.get(ordinal)
         if spec is None:
+            mf = self.try_map_filter_loop(ex, s, seq, st)
+            if mf is not None:
+                return mf
             ex.unsupported(s, f"loop #{ordinal} over symbolic sequence needs an invariant in the sidecar")
         a = st.ghost.get("args")
         if isinstance(seq, SOpaque) and seq.sort == "PatternList":
@@ -744,6 +767,94 @@ class Models:
             outs.append(Outcome("fall", None, exit_st))
         return outs
 
+    # ------------------------------------------------------------------ filter/map loops without an invariant
+    def try_map_filter_loop(self, ex, s, seq, st):
+        """`acc = []; for x in <symbolic sequence>: [guards with continue]; acc.append(e)` is the loop spelling of a
+        list comprehension: handled by the same element-wise abstraction (SymMapped), so that rewriting a
+        comprehension as a loop (or the reverse) needs no sidecar invariant. Recognised only if the body is
+        element-independent: it appends to exactly one list that was empty, assigns only names that did not exist
+        before, and contains nothing but if / continue / raise / logging / those appends and assignments."""
+        from .abstractions import SymMapped
+
+        if s.orelse:
+            return None
+        accs, assigned = set(), set()
+
+        def ok_stmt(n):
+            if isinstance(n, ast.If):
+                return all(ok_stmt(x) for x in n.body) and all(ok_stmt(x) for x in n.orelse)
+            if isinstance(n, (ast.Continue, ast.Pass, ast.Raise)):
+                return True
+            if isinstance(n, ast.Expr) and isinstance(n.value, ast.Call) and isinstance(n.value.func, ast.Attribute) and isinstance(n.value.func.value, ast.Name):
+                f = n.value.func
+                if f.value.id == "logger":
+                    return True
+                if f.attr == "append" and len(n.value.args) == 1 and not n.value.keywords:
+                    accs.add(f.value.id)
+                    return True
+                return False
+            if isinstance(n, (ast.Assign, ast.AnnAssign)):
+                tgts = n.targets if isinstance(n, ast.Assign) else [n.target]
+                for t in tgts:
+                    names = [t] if isinstance(t, ast.Name) else (list(t.elts) if isinstance(t, (ast.Tuple, ast.List)) else None)
+                    if names is None or not all(isinstance(x, ast.Name) for x in names):
+                        return False
+                    assigned.update(x.id for x in names)
+                return getattr(n, "value", None) is not None
+            return False
+
+        if not all(ok_stmt(n) for n in s.body) or len(accs) != 1:
+            return None
+        (acc,) = accs
+        if st.env.get(acc) != [] or not isinstance(st.env.get(acc), list):
+            return None
+        tnames = {n.id for n in ast.walk(s.target) if isinstance(n, ast.Name)}
+        if any(a in st.env for a in assigned) or acc in assigned or acc in tnames:
+            return None
+        # the accumulator may be mentioned only as the receiver of .append
+        uses = [n for b in s.body for n in ast.walk(b) if isinstance(n, ast.Name) and n.id == acc]
+        appends = [n for b in s.body for n in ast.walk(b) if isinstance(n, ast.Call) and isinstance(n.func, ast.Attribute) and n.func.attr == "append" and isinstance(n.func.value, ast.Name) and n.func.value.id == acc]
+        if len(uses) != len(appends):
+            return None
+        env_snapshot = dict(st.env)
+
+        def fn(ex_, elem, st0):
+            s1 = st0.fork()
+            frame = dict(env_snapshot)
+            frame[acc] = []
+            s1.frames.append(frame)
+            res = []
+            for ao in ex_.assign(s.target, elem, s1):
+                if ao.kind != "fall":
+                    ao.st.frames.pop()
+                    res.append((ao.st, "raise", ao.value))
+                    continue
+                for o in ex_.exec_block(s.body, ao.st):
+                    got = o.st.env.get(acc)
+                    o.st.frames.pop()
+                    if o.kind == "raise":
+                        res.append((o.st, "raise", o.value))
+                    elif o.kind in ("fall", "continue"):
+                        if not isinstance(got, list) or len(got) > 1:
+                            raise Unsupported("filter/map loop appends more than once per element")
+                        res.append((o.st, "keep", got[0]) if got else (o.st, "drop", None))
+                    else:
+                        raise Unsupported(f"filter/map loop body ends with {o.kind}")
+            return res
+
+        sm = SymMapped(seq, fn, "list")
+        outs = []
+        for r in self._symmapped_outcomes(ex, sm, st):
+            if isinstance(r, Exc):
+                outs.append(Outcome("raise", r.exc, r.st))
+            else:
+                r.st.env[acc] = sm
+                for a in assigned | tnames:
+                    r.st.env.pop(a, None)  # per-element temporaries are not defined after the abstraction
+                outs.append(Outcome("fall", None, r.st))
+        ex.stats["map_filter_loops"] = ex.stats.get("map_filter_loops", 0) + 1
+        return outs
+
     def seq_elem(self, seq, k):
         if isinstance(seq, SSeq):
             e = seq.t[k]
@@ -770,14 +881,18 @@ class Models:
     def while_stmt(self, ex, s, st):
         outs = []
         states = [st]
+        sym_rounds = 0
         for _ in range(2000):
             nxt = []
+            forked = False
             for cur in states:
                 for r in ex.eval(s.test, cur):
                     if isinstance(r, Exc):
                         outs.append(Outcome("raise", r.exc, r.st))
                         continue
                     c = v_truthy(r.v)
+                    if isinstance(c, SBool):
+                        c = c.t
                     if isinstance(c, z3.BoolRef):
                         c = z3.simplify(c)
                         if z3.is_true(c):
@@ -785,7 +900,25 @@ class Models:
                         elif z3.is_false(c):
                             c = False
                         else:
-                            ex.unsupported(s, "while with symbolic condition needs an invariant")
+                            # symbolic condition: bounded unwinding with an unwinding assertion - both branches are
+                            # followed; the loop must provably end (the continuing branch becomes infeasible or the
+                            # condition concrete) within SYM_UNWIND rounds, otherwise an invariant is needed
+                            forked = True
+                            t, f = ex.split(c, r.st)
+                            if f is not None:
+                                if s.orelse:
+                                    outs.extend(ex.exec_block(s.orelse, f))
+                                else:
+                                    outs.append(Outcome("fall", None, f))
+                            if t is not None:
+                                for o in ex.exec_block(s.body, t):
+                                    if o.kind in ("fall", "continue"):
+                                        nxt.append(o.st)
+                                    elif o.kind == "break":
+                                        outs.append(Outcome("fall", None, o.st))
+                                    else:
+                                        outs.append(o)
+                            continue
                     if not c:
                         if s.orelse:
                             outs.extend(ex.exec_block(s.orelse, r.st))
@@ -802,6 +935,10 @@ class Models:
             states = nxt
             if not states:
                 return outs
+            if forked:
+                sym_rounds += 1
+                if sym_rounds > SYM_UNWIND:
+                    ex.unsupported(s, f"while with symbolic condition still running after {SYM_UNWIND} unwindings: needs an invariant")
         ex.unsupported(s, "while loop did not terminate concretely within 2000 iterations")
 
     def with_stmt(self, ex, s, st):
@@ -871,6 +1008,11 @@ class Models:
         from .abstractions import SymMapped
 
         sm = self.symbolic_comprehension(ex, node, gen, it, st, kind)
+        return self._symmapped_outcomes(ex, sm, st)
+
+    def _symmapped_outcomes(self, ex, sm, st):
+        from .abstractions import SymMapped
+
         root = sm.root() if isinstance(sm.base, SymMapped) else sm.base
         if not isinstance(root, SSeq) or root.elem != "str":
             return [Val(sm, st)]
@@ -1045,7 +1187,20 @@ class Models:
                 fr = ex.wrap_global(fn, None, fn.__name__)
                 if isinstance(fr, FuncRef):
                     return self.call_repo(ex, fr, args, kwargs, st, node)
+        if fn is next and args and isinstance(args[0], GenList):
+            # next(<generator expression>[, default]): the generator is modelled as the list of what it would yield
+            g = args[0]
+            if g:
+                return [Val(g.pop(0), st)]
+            if len(args) > 1:
+                return [Val(args[1], st)]
+            return [ex.raise_(StopIteration, st)]
+        if fn is iter and len(args) == 1 and isinstance(args[0], (list, tuple)) and not isinstance(args[0], GenList):
+            return [Val(GenList(args[0]), st)]
         if not V.contains_sym(args) and not V.contains_sym(kwargs) and (fn in self.PURE_CONCRETE or getattr(fn, "__module__", None) in ("builtins", "operator", "itertools")):
+            if not (_plain(args) and _plain(kwargs)):
+                # an exception of the *model's* Python objects (PathVal, records, ...) is not an exception of the program
+                ex.unsupported(node, f"call of {getattr(fn, '__name__', fn)!r} on modelled (non-plain) values")
             try:
                 return [Val(fn(*args, **kwargs), st)]
             except Exception as e:
@@ -1081,6 +1236,12 @@ class Models:
             # recursion and calls to other functions under contract are modular
             return apply_contract(ex, c, fr, args, kwargs, st, node, bound_self)
         if (c is not None and c.inline) or fr.qualname in self.inline_ok or ".<locals>." in fr.qualname:
+            return ex.call_funcref(fr, args, kwargs, st, bound_self)
+        if fr.qualname.startswith("bumpver.") and c is None:
+            # a repository function without a contract (typically a helper extracted by a refactoring): executed
+            # inline as part of the caller's body - exact, bounded by the inline depth limit, recorded in the evidence
+            ex.stats["auto_inlined"] = ex.stats.get("auto_inlined", 0) + 1
+            ex.auto_inlined = getattr(ex, "auto_inlined", set()) | {fr.qualname}
             return ex.call_funcref(fr, args, kwargs, st, bound_self)
         ex.unsupported(node, f"call to {fr.qualname}: neither under contract nor marked inline")
 
@@ -1250,6 +1411,12 @@ class Models:
 
     # ------------------------------------------------------------------ methods of builtin values
     def call_method(self, ex, obj, name, args, kwargs, st, node):
+        import logging as _logging
+
+        if isinstance(obj, _logging.Logger) and name in ("debug", "info", "warning", "error", "critical", "exception", "log"):
+            # A-log: a logger method reached through an alias (log_fn = logger.debug) is the same no-op effect
+            st.emit("Log", name, getattr(node, "lineno", 0))
+            return [Val(None, st)]
         if obj is os.environ and name == "copy":
             return [Val({"<os.environ>": True}, st)]
         if (obj is sys.stdout or obj is sys.stderr or getattr(obj, "name", None) in ("<stdout>", "<stderr>")) and name in ("write", "isatty", "flush"):
@@ -1408,6 +1575,16 @@ class Models:
             return self.open_file(ex, p, mode, kwargs, st, node)
         if name == "absolute":
             return [Val(p, st)]
+        if name in ("read_bytes", "read_text") and not args:
+            # Path.read_bytes() / read_text(encoding=..): open, read, close in one call
+            mode = "rb" if name == "read_bytes" else "rt"
+            out = []
+            for r in self.open_file(ex, p, mode, kwargs, st, node):
+                if isinstance(r, Exc):
+                    out.append(r)
+                else:
+                    out.extend(self.file_method(ex, r.v, "read", [], {}, r.st, node))
+            return out
         ex.unsupported(node, f"Path.{name}")
 
     def open_file(self, ex, p, mode, kwargs, st, node):
